@@ -175,7 +175,7 @@ def check_buffer_primitive(chk, db, fn, roles, kind, limit_err, rules, label):
     pos = Poly.atom('f:' + roles.pos)
     g_ok, e_ok, c_ok = True, True, True
     g_why, e_why, c_why = [], [], []
-    np_why, np_seen = [], []
+    np_why, np_seen, np_unknown = [], [], []
     refusals = 0
     bufref = 'f:%s[' % roles.buffer
     for p in paths:
@@ -253,14 +253,18 @@ def check_buffer_primitive(chk, db, fn, roles, kind, limit_err, rules, label):
         if rules.get('NP') and mems and any(repr(x) in ('p:begin', '&p:byte') or repr(x).startswith('p:') for x in mems[0].args[:2]):
             w = path_model(p, need, roles, lambda n, rem: n == 0)
             np_seen.append(1)
-            if w is not None and not (need.is_const() and need.const_value() > 0):
+            if w == 'unknown':
+                np_unknown.append(p.describe()[:120])
+            elif w is not None and not (need.is_const() and need.const_value() > 0):
                 np_why.append('%s on the caller\'s range is reached with an empty request (%s): a null range is undefined behaviour' % (
                     mems[0].name, 'condition not interpretable' if w == 'unknown' else ', '.join('%s=%s' % kv for kv in sorted(w.items()))))
     if rules.get('G'):
         chk.decide(g_ok, rules['G'], where, '%s: %s' % (label, '; '.join(sorted(set(g_why))) if g_why else 'every transfer guarded by need=%r <= remaining' % need), function=label)
         if g_ok:
             chk.decide(e_ok and refusals >= 1, rules['E'], where, '%s: %s' % (label, '; '.join(sorted(set(e_why))) if e_why else 'refusal returns ' + limit_err), function=label)
-    if rules.get('NP') and np_seen:
+    if rules.get('NP') and np_unknown and not np_why:
+        chk.unanalysable(rules['NP'], where, '%s: a condition on the path to the block copy is not a comparison over the parameters and the position / limit fields: [%s]' % (label, np_unknown[0]))
+    elif rules.get('NP') and np_seen:
         chk.decide(not np_why, rules['NP'], where + ' null', '%s: %s' % (label, '; '.join(sorted(set(np_why))) if np_why else
                    'the block copy on the caller\'s range runs only for a non-empty request'), function=label)
     if rules.get('C'):
